@@ -17,6 +17,7 @@ func init() {
 	reg("C09", "C09.R3", "E1", "the commit reads batch.events after the send (worker holds only the batch pointer)", 1, ruleCommitReadsAfterSend)
 	reg("C09", "C09.R4", "E7", "sibling onError closures: unconditional Fail loop over all events; IsDeadQueueAvailable wired from the Router; fatal only without dead queue", 9, ruleOnErrorSiblings)
 	reg("C09", "C09.R5", "E2", "Router.Fail forwards the event to the dead queue under the availability test and does nothing else", 1, ruleRouterFail)
+	reg("C09", "C09.R7", "E6", "the dead queue a pipeline is given is its own: per-pipeline plugin settings are never stored through the registry's shared entry", 2, ruleRegistryEntriesShared)
 	reg("C09", "C09.R6", "E2", "send-before-commit in the worker (same rule as C01.R4)", 1, ruleSendBeforeCommit)
 }
 
@@ -353,4 +354,98 @@ func ruleRouterFail(c *Ctx, r *Rule) {
 	}
 	r.Ob(okA, c.fnName(avail)+"|definition", avail.Pos(), "IsDeadQueueAvailable() is deadQueue != nil")
 	_ = types.Typ
+}
+
+// ruleRegistryEntriesShared: the plugin registry hands out ONE PluginStaticInfo per plugin type, shared by
+// every pipeline. Per-pipeline settings (the decoded config, the dead-queue info) must therefore be
+// stored in a copy; a store through the registry's pointer changes the dead queue (or plugin) of
+// every other pipeline that uses the same type — all pipelines are built before any is started.
+func ruleRegistryEntriesShared(c *Ctx, r *Rule) {
+	reg := c.Named("fd", "PluginRegistry")
+	if reg == nil {
+		r.Unresolved("fd.PluginRegistry")
+		return
+	}
+	// getters: methods of the registry returning *PluginStaticInfo
+	getters := map[*ssa.Function]bool{}
+	for _, fn := range c.ModFuncs {
+		if rn := recvNamed(fn); rn == reg && fn.Signature.Results().Len() >= 1 {
+			if typeIs(fn.Signature.Results().At(0).Type(), pipelinePkg, "PluginStaticInfo") {
+				getters[fn] = true
+			}
+		}
+	}
+	if len(getters) == 0 {
+		r.Unresolved("registry getters returning *PluginStaticInfo")
+		return
+	}
+	var fromRegistry func(v ssa.Value, d int) (string, bool)
+	fromRegistry = func(v ssa.Value, d int) (string, bool) {
+		if d > 6 {
+			return "", false
+		}
+		switch x := stripConv(v).(type) {
+		case *ssa.Call:
+			if f := x.Call.StaticCallee(); f != nil && getters[f] {
+				return c.fnName(f), true
+			}
+		case *ssa.Extract:
+			return fromRegistry(x.Tuple, d+1)
+		case *ssa.Phi:
+			for _, e := range x.Edges {
+				if s, ok := fromRegistry(e, d+1); ok {
+					return s, true
+				}
+			}
+		case *ssa.Parameter:
+			// a helper that receives the entry: every call site
+			fn := x.Parent()
+			pi := paramIndex(fn, x)
+			for _, cs := range c.sitesOf(fn) {
+				if pi >= 0 && pi < len(cs.Common().Args) {
+					if s, ok := fromRegistry(cs.Common().Args[pi], d+1); ok {
+						return s, true
+					}
+				}
+			}
+		case *ssa.UnOp:
+			if x.Op == token.MUL {
+				if cv := cellValue(x.X); cv != nil {
+					return fromRegistry(cv, d+1)
+				}
+			}
+		}
+		return "", false
+	}
+	nGet, nStore := 0, 0
+	c.eachCall(func(fn *ssa.Function, ci ssa.CallInstruction) {
+		if f := ci.Common().StaticCallee(); f != nil && getters[f] {
+			nGet++
+		}
+	})
+	for _, fn := range c.ModFuncs {
+		for _, b := range fn.Blocks {
+			for _, in := range b.Instrs {
+				st, ok := in.(*ssa.Store)
+				if !ok {
+					continue
+				}
+				fa, ok := st.Addr.(*ssa.FieldAddr)
+				if !ok || !typeIs(fa.X.Type(), pipelinePkg, "PluginStaticInfo") {
+					continue
+				}
+				nStore++
+				src, shared := fromRegistry(fa.X, 0)
+				o, f, _, _ := fieldOf(fa)
+				name := f
+				if o != nil {
+					name = o.Obj().Name() + "." + f
+				}
+				r.Inst(1)
+				r.Ob(!shared, c.fnName(fn)+"|writes-"+name, st.Pos(), "per-pipeline plugin settings are stored in a copy, never through the registry's shared entry"+ifs(shared, " (the written info is the result of "+src+": every pipeline using this plugin type — e.g. a dead queue of the same type — gets the settings of the pipeline built last)"))
+			}
+		}
+	}
+	r.Inst(1)
+	r.Ob(nGet >= 2 && nStore >= 1, "registry|scope", token.NoPos, fmt.Sprintf("%d registry look-ups, %d stores into a PluginStaticInfo examined", nGet, nStore))
 }
